@@ -30,6 +30,7 @@ type vfLifeCfg struct {
 	opens string // answers of pipe.Open for reopen attempts: k = ok, e = error
 	user  string // script over O C I R
 	wfail int    // index of the pipe write that fails (-1: none)
+	cfail int    // the first cfail calls of the underlying transport's Close fail (and leave it open)
 	nomon bool
 }
 
@@ -60,6 +61,8 @@ func vfParseLife(s string) vfLifeCfg {
 			c.user = p[1]
 		case "w":
 			c.wfail, _ = strconv.Atoi(p[1])
+		case "cf":
+			c.cfail, _ = strconv.Atoi(p[1])
 		}
 	}
 	return c
@@ -243,6 +246,13 @@ func vfLifeMake(scn string) (func(), func(*vsched.Exec) (string, *vsched.Violati
 			reopenIdx++
 			if ans == 'e' {
 				return thrift.NewTTransportException(thrift.UNKNOWN_TRANSPORT_EXCEPTION, "injected open failure")
+			}
+			return nil
+		}
+		p.onClose = func(p *vfPipe) error {
+			if p.closes <= cfg.cfail {
+				vsched.Note("underlying Close fails")
+				return thrift.NewTTransportException(thrift.UNKNOWN_TRANSPORT_EXCEPTION, "injected close failure")
 			}
 			return nil
 		}
@@ -653,6 +663,12 @@ func init() {
 				gen("", 4)
 			} else {
 				gen("", 3)
+			}
+			// (g) the underlying transport's Close fails once (and leaves the stream open) under a user's
+			// Close: whatever the transport answers, it must stay consistent — open with a live reader,
+			// or closed with its stream closed, its cause published and its monitor told
+			for _, u := range []string{"C", "CC", "CI", "CO", "CCO", "CCC", "WC", "WCC"} {
+				out = append(out, fmt.Sprintf("m=1,s=0:none,o=k,u=%s,cf=1", u))
 			}
 			// (f) write failures at every operation index
 			for w := 0; w < 3; w++ {
